@@ -78,6 +78,9 @@ type ScnCfg struct {
 	// with Twice: the second start is a RESTART of the same *app.App value (Run again with a fresh registry, factory and
 	// configure) instead of a new App over the same instances
 	SameApp bool `json:"sameapp"`
+	// "<component type>/<field>" -> the qualifier set of an injection point whose tag does not carry it: every user
+	// post-processor of the scenario adds it through the exported argument API when it is shown the property
+	QualAPI map[string][]string `json:"qualapi"`
 }
 
 type Event struct {
@@ -307,8 +310,32 @@ func (p *ProcCore) PostProcessBeforeInstantiation(m *component_definition.Meta, 
 	}
 	return nil, nil
 }
-func (p *ProcCore) PostProcessAfterInstantiation(c any, name string) (bool, error) { return false, nil }
+
+// PostProcessAfterInstantiation: true ("show me the properties") only in scenarios in which this processor has
+// something to do with them
+func (p *ProcCore) PostProcessAfterInstantiation(c any, name string) (bool, error) {
+	return p.pb != nil && p.pb.S != nil && len(p.pb.S.Cfg.QualAPI) > 0, nil
+}
 func (p *ProcCore) PostProcessProperties(ps []*component_definition.Property, c any, name string) ([]*component_definition.Property, error) {
+	if p.pb == nil || p.pb.S == nil || len(p.pb.S.Cfg.QualAPI) == 0 {
+		return nil, nil
+	}
+	t := reflect.TypeOf(unwrapProxy(c))
+	for t != nil && t.Kind() == reflect.Ptr {
+		t = t.Elem()
+	}
+	if t == nil {
+		return nil, nil
+	}
+	for _, prop := range ps {
+		if prop.PropertyType != component_definition.PropertyTypeComponent {
+			continue
+		}
+		if quals, ok := p.pb.S.Cfg.QualAPI[t.Name()+"/"+prop.StructField.Name]; ok {
+			// the spelling tags use; the built-in further-matching processor reads it as ArgQualifier
+			prop.AddArg("qualifier", quals...)
+		}
+	}
 	return nil, nil
 }
 
